@@ -1,6 +1,7 @@
 (* C11 driver: one case per line on stdin, one result line on stdout, same format as the harness.
    bs <bits> <len> <raw> <step>...   raw = nil | - | h1,h2,..  (hexadecimal uint64)
      steps  g:i  s:i:v  w:i:v  r  l  W  R:<hex>  F:<bits>
+   bsw ... = bs ... (phase 4: multi-round wire scripts, sampled separately by tools/xcheck.py)
    size <bits> <len> | bpv <len> <longs> | pack <b> <vals> | unpack <b> <n> <raw> | spec <b> <vals> <aop>... *)
 (* uint64 words travel in hexadecimal (linear-time conversion to and from the extracted N) *)
 let n_of_hex (s : string) : n =
@@ -79,6 +80,13 @@ let () = iter_lines (fun line ->
       (match bs_new (z_of_dec bt) (z_of_dec ln) r with
        | RPanic w -> Buffer.add_string b ("bs new!" ^ dec_of_n w)
        | ROk st -> Buffer.add_string b "bs ok"; run_script st steps b);
+      print_endline (Buffer.contents b)
+  | "bsw" :: bt :: ln :: raw :: steps ->                    (* phase 4: same script, kind of its own *)
+      let r = if raw = "nil" then None else Some (nlist_of raw) in
+      let b = Buffer.create 256 in
+      (match bs_new (z_of_dec bt) (z_of_dec ln) r with
+       | RPanic w -> Buffer.add_string b ("bsw new!" ^ dec_of_n w)
+       | ROk st -> Buffer.add_string b "bsw ok"; run_script st steps b);
       print_endline (Buffer.contents b)
   | ["size"; bt; ln] ->
       (match calc_size (z_of_dec bt) (z_of_dec ln) with
